@@ -149,8 +149,10 @@ def run_check(prop, tier, seed, replay=None):
         if bad:
             ctx.ob(n, False, 'theorem', f'line {bad[0]["line"]}: {bad[0]["message"]}')
         elif not ok:
-            ctx.ob(n, False, 'theorem', 'not built: an upstream module failed: ' +
-                   '; '.join(f'{b["file"]}:{b["decl"]}' for b in upstream_broken[:4]))
+            why = ('an upstream module failed: ' + '; '.join(f'{b["file"]}:{b["decl"]}' for b in upstream_broken[:4])) \
+                if upstream_broken else 'another theorem of this file failed, so the module was not produced and this ' \
+                'theorem could not be audited'
+            ctx.ob(n, False, 'theorem', 'not built: ' + why)
     # 3. audit
     axioms = {}
     if ok:
